@@ -51,9 +51,38 @@ def fam_pattern(n):
     return "a = " + "[" * n + "1" + ",]" * n + "\n" + "[" * n + "b" + ",]" * n + " = a\nprint(b)\n"
 
 
+# a long operator chain standing in every kind of statement position (the converter copies, wraps and re-visits the
+# expressions of some statements: each such path must stay as deep-input-proof as the plain assignment)
+POSITIONS = {
+    "aug_name": "x = 1\nt = 0\nt += {E}\nprint(t)\n",
+    "aug_sub": "x = 1\nd = [0]\nd[0] += {E}\nprint(d)\n",
+    "aug_attr": "x = 1\nclass A:\n    pass\na = A()\na.v = 0\na.v += {E}\nprint(a.v)\n",
+    "return": "def f(x):\n    return {E}\nprint(f(1))\n",
+    "call_arg": "x = 1\nprint(max({E}, 0))\n",
+    "if_test": "x = 1\nif {E}:\n    print('t')\nelse:\n    print('f')\n",
+    "while_test": "x = 1\nn = 0\nwhile n < 2 and {E}:\n    n += 1\nprint(n)\n",
+    "for_iter": "x = 1\nfor i in [{E}]:\n    print(i)\n",
+    "subscript_index": "x = 1\nd = {{}}\nd[{E}] = 1\nprint(sorted(d))\n",
+    "default": "x = 1\ndef f(a={E}):\n    return a\nprint(f())\n",
+    "lambda_body": "x = 1\nprint((lambda: {E})())\n",
+    "comp_elt": "x = 1\nprint([{E} for _ in range(1)])\n",
+    "class_attr": "x = 1\nclass K:\n    v = {E}\nprint(K.v)\n",
+    "destructure": "x = 1\na, b = {E}, 2\nprint(a, b)\n",
+    "chained_assign": "x = 1\na = b = {E}\nprint(a, b)\n",
+    "walrus": "x = 1\nprint((w := {E}), w)\n",
+    "fstring_field": "x = 1\nprint(f'{{{E}}}')\n",
+}
+
+
+def fam_position(pos):
+    return lambda n: POSITIONS[pos].format(E=" + ".join(["x"] * n))
+
+
 FAMILIES = {"statements": fam_statements, "elif": fam_elif, "binop": fam_binop, "calls": fam_calls, "attrs": fam_attrs,
             "attr_target": fam_attr_target, "nested_if": fam_nested_if, "nested_for": fam_nested_for, "nested_def": fam_nested_def,
             "pattern": fam_pattern}
+for _pos in POSITIONS:
+    FAMILIES["chain@" + _pos] = fam_position(_pos)
 SCHEDULE = {
     "quick": {"statements": [10, 300, 3000], "elif": [10, 100, 600], "binop": [10, 300, 900], "calls": [10, 300, 900],
               "attrs": [10, 300, 900], "attr_target": [10, 300, 900], "nested_if": [5, 40, 95], "nested_for": [5, 19],
@@ -62,6 +91,11 @@ SCHEDULE = {
                  "calls": [10, 100, 300, 600, 900], "attrs": [10, 100, 300, 600, 900], "attr_target": [10, 100, 300, 600, 900],
                  "nested_if": [5, 20, 50, 90, 99], "nested_for": [5, 10, 19, 20], "nested_def": [5, 10, 19], "pattern": [5, 30, 60, 90]},
 }
+
+
+for _tier, _sizes in (("quick", [10, 300, 900]), ("thorough", [10, 100, 300, 600, 900])):
+    for _pos in POSITIONS:
+        SCHEDULE[_tier]["chain@" + _pos] = _sizes
 
 
 def _work(job):
